@@ -872,6 +872,27 @@ theorem mstep_ok (s s' : St) (i : Mi) (c : Nat) (h : mstep s i = .ok s') (ok : C
     simp only [mstep, pure, Except.pure] at h; cases h
     exact CellOK_same s _ c rfl rfl rfl ok
   | swap => exact swap_ok s s' c h ok
+  | inplace d =>
+    simp only [mstep] at h
+    split at h
+    · cases h
+    · split at h
+      · cases h
+      · simp only [pure, Except.pure] at h; cases h; exact ok
+  | settext d w =>
+    simp only [mstep] at h
+    split at h
+    · cases h
+    · rename_i cell hd
+      split at h
+      · cases h
+      · simp only [pure, Except.pure] at h
+        cases h
+        apply CellOK_congr s _ c _ _ ok
+        · exact metaOf_setCell_same s d cell _ c hd rfl rfl rfl
+        · have x := H_setCell s d cell { cell with text := w } c hd
+          simp only at x
+          omega
 
 /-- the invariant of the whole state -/
 def Inv (s : St) : Prop := ∀ c, CellOK s c
